@@ -129,6 +129,8 @@ pub struct Chain {
     /// spendable outputs (for the generator)
     pub live: Vec<OutPoint>,
     pub branch_salt: u64,
+    /// epoch at which the chain root commitment starts: blocks whose epoch is not after (mmr_epoch, 0/1) carry no extension
+    pub mmr_epoch: u64,
 }
 
 pub const CODE_HASH_A: [u8; 32] = [7u8; 32];
@@ -244,8 +246,17 @@ impl Chain {
             hash_to_num: HashMap::new(),
             live: vec![],
             branch_salt: 0,
+            mmr_epoch: 0,
         };
         c.push_block(0);
+        c
+    }
+
+    /// a chain on which the MMR (chain root commitment in the extension) is activated at epoch `mmr_epoch`
+    pub fn generate_with_mmr_epoch(params: ChainParams, len: u64, mmr_epoch: u64) -> Chain {
+        let mut c = Chain::new(params);
+        c.mmr_epoch = mmr_epoch;
+        c.grow(len.saturating_sub(1));
         c
     }
 
@@ -473,9 +484,12 @@ impl Chain {
             .timestamp((self.params.base_ts + n * 1000 + (salt % 500)).pack());
         if n > 0 {
             let parent = self.blocks.last().unwrap();
-            let root = self.root(n - 1);
-            let ext: packed::Bytes = root.calc_mmr_hash().as_bytes().pack();
-            bb = bb.extension(Some(ext));
+            let committed = EpochNumberWithFraction::new(e.number, n - e.start, e.length) > EpochNumberWithFraction::new(self.mmr_epoch, 0, 1);
+            if committed {
+                let root = self.root(n - 1);
+                let ext: packed::Bytes = root.calc_mmr_hash().as_bytes().pack();
+                bb = bb.extension(Some(ext));
+            }
             hb = hb.parent_hash(parent.hash());
         }
         let b = mine_block(self.params.pow, bb.header(hb.build()).build(), salt);
